@@ -366,7 +366,19 @@ pub fn step(ctx: &BuildContext<TestBp>, layers: &Path, scratch: &Path, names: &[
                                     }
                                     progs.push((string_of(&p[0]), src));
                                 }
-                                on_ref!(r => r.write_exec_d_programs(progs.clone()))
+                                let res = on_ref!(r => r.write_exec_d_programs(progs.clone()));
+                                // the sources change after they were registered (a tool rebuilt in place): what the layer
+                                // holds is what was registered
+                                for (pi, p) in w["progs"].as_array().unwrap().iter().enumerate() {
+                                    if p[1].is_array() {
+                                        use std::io::Write;
+                                        let src = scratch.join(format!("src_{opi}_{wi}_{pi}"));
+                                        if let Ok(mut f) = std::fs::OpenOptions::new().write(true).truncate(true).open(&src) {
+                                            let _ = f.write_all(b"CHANGED-AFTER-REGISTRATION");
+                                        }
+                                    }
+                                }
+                                res
                             }
                             "file" => {
                                 let base = match lref {
